@@ -814,7 +814,7 @@ class Interp(object):
         if arr.kind == K_LIST:
             return arr.replace(elem=join_av(arr.elem, v) if arr.elem is not None else v, items=None,
                                tags=arr.tags | v.tags, indef=arr.indef or v.indef, mono=frozenset(), note=None,
-                               shape=None, alg=alg)
+                               shape=None, alg=alg, sign=sign_join(arr.sign, v.sign) if v.kind in (K_SCALAR, K_BOOL, K_ARRAY) else S_ANY)
         return arr.replace(note=cov if cov is not None else (arr.note if not (isinstance(arr.note, tuple) and arr.note and arr.note[0] == "init") else None),
                            alg=alg, sign=sign_join(arr.sign, v.sign), mono=frozenset(), f0=keep_f0, const=_NOCONST,
                            tags=arr.tags | v.tags | (idx.tags if idx is not None else frozenset()),
@@ -998,8 +998,13 @@ class Interp(object):
         for i in items:
             elem = join_av(elem, i)
         tags = frozenset().union(*[i.tags for i in items]) if items else frozenset()
+        num = all(i.kind in (K_SCALAR, K_BOOL, K_ARRAY) for i in items)
+        sign = S_ZERO if num else S_ANY  # an empty list / a list of literal zeros is compatible with every class
+        for i in items:
+            sign = sign_join(sign, i.sign) if num else S_ANY
         return AV(kind=K_LIST, items=items, elem=elem, origin=frozenset([self.alloc_tok(fr, e)]), tags=tags,
-                  indef=any(i.indef for i in items))
+                  indef=any(i.indef for i in items), alg=self.api.alg_lub_many(list(items)) if (items and num) else {},
+                  sign=sign, mono=frozenset([0]) if not items else frozenset())
 
     def ex_Dict(self, e, fr):
         dv = {}
